@@ -148,9 +148,12 @@ struct Env {
     post_requests: usize,
     /// last chunk the environment knows the poller holds (after discovery: (v0, s0))
     prev: (usize, usize),
-    /// Some(k): the next-volume listing has been answered with k chunks, a GET of (next, k) is expected
-    pending_jump: Option<usize>,
-    never: Option<String>,
+    discovery_over: bool,
+    newest_served: bool,
+    /// a chunk that never appears although the two after it do (per-chunk visibility is independent)
+    hole: Option<(usize, usize)>,
+    never: bool,
+    never_kind: &'static str,
     failures_for_current: usize,
     max_failures_for_one_target: usize,
     unexpected: Vec<String>,
@@ -193,16 +196,30 @@ impl Env {
         Obj { key: format!("{SITE}/{v}/{}", chunk_name(&prefix, s)), modified_ms: upload_ms(&self.root, self.base_ms, v, s), size_text: chunk_bytes(v, s).len().to_string(), fractional: true }
     }
 
-    /// chunks of volume v present when polling starts (discovery only sees this state)
+    /// number of chunks of volume v visible right now (bucket model with an upload frontier)
     fn visible(&self, v: usize) -> usize {
-        let back = back_distance(self.root.v0, v);
-        if v == self.root.v0 {
-            self.root.s0
-        } else if back < POPULATED {
-            55
-        } else {
-            0
+        if !(1..=999).contains(&v) {
+            return 0;
         }
+        let (fv, fs) = self.prev; // frontier: newest visible chunk
+        if v == fv {
+            return fs;
+        }
+        // volumes completed before the frontier volume, back to POPULATED directories behind the start
+        let back_from_start = back_distance(self.root.v0, v);
+        if back_from_start >= 1 && back_from_start < POPULATED {
+            return 55;
+        }
+        // volumes between the start volume and the frontier (completed during this run)
+        let ahead_of_start = back_distance(v, self.root.v0); // distance from v0 forward to v
+        let frontier_ahead = back_distance(fv, self.root.v0);
+        if v == self.root.v0 && fv != self.root.v0 {
+            return 55;
+        }
+        if ahead_of_start >= 1 && ahead_of_start < frontier_ahead && frontier_ahead < 400 {
+            return 55;
+        }
+        0
     }
 
     fn serve_get(&self, v: usize, s: usize) -> Response {
@@ -210,19 +227,109 @@ impl Env {
         Response::new(200, chunk_bytes(v, s).as_ref().clone()).header("Last-Modified", &http_date(o.modified_ms)).header("Content-Type", "binary/octet-stream")
     }
 
+    /// volumes whose key "KDMX/<v>/..." starts with the given listing prefix (true string-prefix semantics)
+    fn volumes_matching(prefix: &str) -> Vec<usize> {
+        let Some(rest) = prefix.strip_prefix("KDMX/") else {
+            return if "KDMX/".starts_with(prefix) { (1..=999).collect() } else { vec![] };
+        };
+        match rest.split_once('/') {
+            Some((d, tail)) => d.parse::<usize>().ok().filter(|_| tail.is_empty() || true).map(|v| vec![v]).unwrap_or_default(),
+            None => (1..=999usize).filter(|v| v.to_string().starts_with(rest)).collect(),
+        }
+    }
+
+    fn list_objects(&self, prefix: &str, max_keys: Option<usize>, extra_visible: Option<(usize, usize)>) -> (Vec<Obj>, bool) {
+        let mut objs: Vec<Obj> = Vec::new();
+        for v in Self::volumes_matching(prefix) {
+            let mut n = self.visible(v);
+            if let Some((ev, es)) = extra_visible {
+                if ev == v {
+                    n = n.max(es);
+                }
+            }
+            for s in 1..=n {
+                let o = self.chunk_obj(v, s);
+                if o.key.starts_with(prefix) {
+                    objs.push(o);
+                }
+            }
+            if let Some((hv, hs)) = self.hole {
+                if hv == v {
+                    for s in (hs + 1)..=(hs + 2).min(55) {
+                        let o = self.chunk_obj(v, s);
+                        if o.key.starts_with(prefix) {
+                            objs.push(o);
+                        }
+                    }
+                }
+            }
+        }
+        objs.sort_by(|a, b| a.key.as_bytes().cmp(b.key.as_bytes()));
+        let lim = max_keys.unwrap_or(1000);
+        let truncated = objs.len() > lim;
+        objs.truncate(lim);
+        (objs, truncated)
+    }
+
+    fn parse_chunk_key(key: &str) -> Option<(usize, usize)> {
+        let rest = key.strip_prefix("KDMX/")?;
+        let (v, name) = rest.split_once('/')?;
+        let v: usize = v.parse().ok()?;
+        let s: usize = name.split('-').nth(2)?.parse().ok()?;
+        Some((v, s))
+    }
+
+    /// Is this request a probe beyond the upload frontier (i.e. does it ask for the chunk that
+    /// would be uploaded next)? Returns the position it probes.
+    fn probe(&self, req: &Request) -> Option<(usize, usize)> {
+        let (fv, fs) = self.prev;
+        let next = if fs < 55 { (fv, fs + 1) } else { (next_volume(fv), 1) };
+        match req {
+            Request::Get { key, .. } => {
+                let (v, s) = Self::parse_chunk_key(key)?;
+                // the exact name must be the next chunk's real key, otherwise it is just a missing object
+                if (v, s) == next && *key == self.chunk_obj(v, s).key {
+                    Some(next)
+                } else {
+                    None
+                }
+            }
+            Request::List { prefix, .. } => {
+                // listing the *next* volume after an end chunk asks for what is uploaded next; listing
+                // the current volume is a question about the present state and is answered truthfully
+                if fs == 55 && Self::volumes_matching(prefix) == vec![next.0] && prefix.ends_with('/') {
+                    Some(next)
+                } else {
+                    None
+                }
+            }
+            _ => None,
+        }
+    }
+
     fn handle(&mut self, req: &Request) -> Response {
         self.drain();
         self.requests.push(req.raw().to_string());
-        if self.requests.len() > REQUEST_HORIZON {
+        if self.requests.len() > if self.root.discovery_faults { 10 * REQUEST_HORIZON } else { REQUEST_HORIZON } {
             self.horizon_hit = true;
             self.send_stop();
             return Response::xml(404, not_found_xml("horizon"));
         }
-        let discovery = self.gets_in_discovery < 2;
-        if discovery {
-            return self.handle_discovery(req);
+        if matches!(req, Request::Get { .. }) {
+            self.gets_in_discovery += 1;
         }
-        // ---- post-discovery: every request is a choice point
+        // discovery lasts until the newest chunk present at start has been served once
+        let probe = if self.newest_served { self.probe(req) } else { None };
+        if let Request::Get { key, .. } = req {
+            if *key == self.chunk_obj(self.root.v0, self.root.s0).key {
+                self.newest_served = true;
+            }
+        }
+        if probe.is_none() {
+            return self.answer_truthfully(req);
+        }
+        // ---- a probe beyond the frontier: the uploader's answer is a choice point
+        self.discovery_over = true;
         let k = self.post_requests as i64;
         self.post_requests += 1;
         if self.root.stop_at == Some(k) {
@@ -231,31 +338,23 @@ impl Env {
         if self.deliveries.len() >= self.root.deliveries_horizon {
             self.send_stop();
         }
-        let (pv, ps) = self.prev;
+        let (nv, ns) = probe.unwrap_or((0, 0));
+        // when a new volume opens, `next_present` chunks become visible at once
+        let advance_to = if ns == 1 && nv != self.prev.0 { (nv, self.root.next_present.max(1)) } else { (nv, ns) };
         match req {
-            Request::Get { bucket, key, .. } => {
-                let (ev, es) = match self.pending_jump {
-                    Some(kk) => (next_volume(pv), kk),
-                    None => (pv, ps + 1),
-                };
-                let exp_key = self.chunk_obj(ev, es.min(55)).key;
-                if bucket != BUCKET || *key != exp_key || (self.pending_jump.is_none() && ps >= 55) {
-                    self.unexpected.push(format!("GET {key} (expected {exp_key})"));
-                    return Response::xml(404, not_found_xml(key));
-                }
-                if self.never.as_deref() == Some(key.as_str()) {
+            Request::Get { key, .. } => {
+                if self.never {
                     self.failures_for_current += 1;
                     return Response::xml(404, not_found_xml(key));
                 }
                 let c = self.choices.choose(GET_MENU.len());
-                self.log.push(format!("GET {ev}/{es:03}: {}", GET_MENU[c]));
+                self.log.push(format!("GET {nv}/{ns:03}: {}", GET_MENU[c]));
                 match c {
                     0 => {
-                        self.prev = (ev, es);
-                        self.pending_jump = None;
+                        self.prev = advance_to;
                         self.max_failures_for_one_target = self.max_failures_for_one_target.max(self.failures_for_current);
                         self.failures_for_current = 0;
-                        self.serve_get(ev, es)
+                        self.serve_get(nv, ns)
                     }
                     1 => {
                         self.failures_for_current += 1;
@@ -266,37 +365,35 @@ impl Env {
                         Response::xml(500, error_xml("InternalError"))
                     }
                     _ => {
-                        self.never = Some(key.clone());
+                        self.never = true;
+                        self.never_kind = "download";
+                        // this chunk never shows up, the two after it do
+                        self.hole = Some((nv, ns));
                         self.failures_for_current += 1;
                         Response::xml(404, not_found_xml(key))
                     }
                 }
             }
             Request::List { bucket, prefix, max_keys, .. } => {
-                let nv = next_volume(pv);
-                let exp_prefix = format!("{SITE}/{nv}/");
-                if bucket != BUCKET || *prefix != exp_prefix || ps != 55 || self.pending_jump.is_some() {
-                    self.unexpected.push(format!("LIST {prefix} (expected {})", if ps == 55 { exp_prefix.clone() } else { "a chunk download".into() }));
-                    return Response::xml(200, list_xml(bucket, prefix, &[], false, 0));
-                }
-                if self.never.as_deref() == Some(prefix.as_str()) {
+                if self.never {
                     self.failures_for_current += 1;
-                    return Response::xml(200, list_xml(bucket, prefix, &[], false, 0));
+                    let (objs, tr) = self.list_objects(prefix, *max_keys, None);
+                    return Response::xml(200, list_xml(bucket, prefix, &objs, tr, 0));
                 }
                 let c = self.choices.choose(LIST_MENU.len());
                 self.log.push(format!("LIST {nv}: {}", LIST_MENU[c]));
                 match c {
                     0 => {
-                        let n = self.root.next_present.min(max_keys.unwrap_or(1000));
-                        let objs: Vec<Obj> = (1..=n).map(|s| self.chunk_obj(nv, s)).collect();
-                        self.pending_jump = Some(n);
+                        self.prev = advance_to;
                         self.max_failures_for_one_target = self.max_failures_for_one_target.max(self.failures_for_current);
                         self.failures_for_current = 0;
-                        Response::xml(200, list_xml(bucket, prefix, &objs, false, 0))
+                        let (objs, tr) = self.list_objects(prefix, *max_keys, None);
+                        Response::xml(200, list_xml(bucket, prefix, &objs, tr, 0))
                     }
                     1 => {
                         self.failures_for_current += 1;
-                        Response::xml(200, list_xml(bucket, prefix, &[], false, 0))
+                        let (objs, tr) = self.list_objects(prefix, *max_keys, None);
+                        Response::xml(200, list_xml(bucket, prefix, &objs, tr, 0))
                     }
                     2 => {
                         self.failures_for_current += 1;
@@ -307,9 +404,11 @@ impl Env {
                         Response::xml(200, "<ListBucketResult><Contents><Key>".to_string())
                     }
                     _ => {
-                        self.never = Some(prefix.clone());
+                        self.never = true;
+                        self.never_kind = "listing";
                         self.failures_for_current += 1;
-                        Response::xml(200, list_xml(bucket, prefix, &[], false, 0))
+                        let (objs, tr) = self.list_objects(prefix, *max_keys, None);
+                        Response::xml(200, list_xml(bucket, prefix, &objs, tr, 0))
                     }
                 }
             }
@@ -320,41 +419,34 @@ impl Env {
         }
     }
 
-    fn handle_discovery(&mut self, req: &Request) -> Response {
-        let fault = if self.root.discovery_faults { self.choices.choose(DISCOVERY_MENU.len()) } else { 0 };
+    /// Any request that is not a frontier probe is answered from the bucket model as it is now.
+    fn answer_truthfully(&mut self, req: &Request) -> Response {
+        let fault = if self.root.discovery_faults && !self.newest_served && self.choices.log.len() < 40 { self.choices.choose(DISCOVERY_MENU.len()) } else { 0 };
         match req {
             Request::List { bucket, prefix, max_keys, .. } => {
-                let dir = prefix.strip_prefix("KDMX/").and_then(|r| r.strip_suffix('/')).and_then(|d| d.parse::<usize>().ok());
-                let Some(v) = dir.filter(|d| (1..=999).contains(d)) else {
-                    self.unexpected.push(format!("discovery LIST {prefix}"));
-                    return Response::xml(200, list_xml(bucket, prefix, &[], false, 0));
-                };
+                if bucket != BUCKET {
+                    self.unexpected.push(format!("LIST in bucket {bucket}"));
+                }
                 match fault {
                     1 => return Response::xml(500, error_xml("InternalError")),
                     2 => return Response::xml(200, "<ListBucketResult><Contents><Key>".to_string()),
                     _ => {}
                 }
-                let n = self.visible(v).min(max_keys.unwrap_or(1000));
-                let objs: Vec<Obj> = (1..=n).map(|s| self.chunk_obj(v, s)).collect();
-                let truncated = self.visible(v) > n;
-                Response::xml(200, list_xml(bucket, prefix, &objs, truncated, 0))
+                let (objs, tr) = self.list_objects(prefix, *max_keys, None);
+                Response::xml(200, list_xml(bucket, prefix, &objs, tr, 0))
             }
-            Request::Get { key, .. } => {
-                self.gets_in_discovery += 1;
+            Request::Get { bucket, key, .. } => {
                 match fault {
                     1 => return Response::xml(500, error_xml("InternalError")),
                     2 => return Response::xml(404, not_found_xml(key)),
                     _ => {}
                 }
-                let expect = if self.gets_in_discovery == 1 { self.chunk_obj(self.root.v0, self.root.s0).key } else { self.chunk_obj(self.root.v0, 1).key };
-                if *key != expect {
-                    self.unexpected.push(format!("discovery GET {key} (expected {expect})"));
-                    return Response::xml(404, not_found_xml(key));
-                }
-                if self.gets_in_discovery == 1 {
-                    self.serve_get(self.root.v0, self.root.s0)
-                } else {
-                    self.serve_get(self.root.v0, 1)
+                match Self::parse_chunk_key(key) {
+                    Some((v, s)) if bucket == BUCKET && s >= 1 && (s <= self.visible(v) || self.hole.map(|(hv, hs)| hv == v && s > hs && s <= hs + 2 && s <= 55).unwrap_or(false)) && *key == self.chunk_obj(v, s).key => self.serve_get(v, s),
+                    _ => {
+                        self.unexpected.push(format!("GET {key} (no such object)"));
+                        Response::xml(404, not_found_xml(key))
+                    }
                 }
             }
             Request::Other { raw } => {
@@ -373,6 +465,7 @@ pub struct Observation {
     pub post_requests: usize,
     pub unexpected: Vec<String>,
     pub never: bool,
+    pub never_kind: &'static str,
     pub max_failures: usize,
     pub stop_sent_at: Option<usize>,
     pub dropped_at: Option<usize>,
@@ -414,8 +507,11 @@ pub fn execute(sim: &Sim, root: &Root, choices: Choices) -> Observation {
         gets_in_discovery: 0,
         post_requests: 0,
         prev: (root.v0, root.s0),
-        pending_jump: None,
-        never: None,
+        discovery_over: false,
+        newest_served: false,
+        hole: None,
+        never: false,
+        never_kind: "",
         failures_for_current: 0,
         max_failures_for_one_target: 0,
         unexpected: vec![],
@@ -465,7 +561,8 @@ pub fn execute(sim: &Sim, root: &Root, choices: Choices) -> Observation {
         requests: e.requests.len(),
         post_requests: e.post_requests,
         unexpected: e.unexpected.clone(),
-        never: e.never.is_some(),
+        never: e.never,
+        never_kind: e.never_kind,
         max_failures: e.max_failures_for_one_target.max(e.failures_for_current),
         stop_sent_at: e.stop_sent_at_delivery_count,
         dropped_at: e.dropped_at,
@@ -473,7 +570,7 @@ pub fn execute(sim: &Sim, root: &Root, choices: Choices) -> Observation {
         log: e.log.clone(),
         choices: std::mem::take(&mut e.choices),
         virtual_secs: virt,
-        discovery_complete: e.gets_in_discovery >= 2,
+        discovery_complete: e.discovery_over,
     }
 }
 
@@ -573,7 +670,9 @@ pub fn judge(ctx: &Ctx, root: &Root, o: &Observation, st: &mut Stats) -> String 
         }
     }
     if !o.unexpected.is_empty() {
-        ctx.fail("poll:request_outside_expected_next_chunk_or_next_volume_listing", || format!("{:?} choices {:?}: {:?}", root, o.choices.taken(), o.unexpected), wit);
+        // requests for objects the bucket does not hold are an observation, not a verdict: the
+        // property constrains what is delivered, not which requests are made
+        st.count("executions_with_requests_for_absent_objects", 1);
     }
     // ---- termination reason
     let dropped = o.dropped_at.is_some();
@@ -599,18 +698,16 @@ pub fn judge(ctx: &Ctx, root: &Root, o: &Observation, st: &mut Stats) -> String 
         }
     } else {
         // an error: allowed only if the consumer has gone, or a chunk never appeared within the budget
-        let consumer_err = o.result.contains("PollingAsyncError");
-        let missing_err = o.result.contains("ExpectedChunkNotFound");
-        if consumer_err && dropped {
-            outcome = "err_consumer_gone".into();
-        } else if missing_err && budget_exhaustible {
-            outcome = if o.log.iter().rev().any(|l| l.starts_with("LIST") && l.ends_with("never")) { "err_budget_listing".into() } else { "err_budget_download".into() };
-        } else if dropped {
-            // any error once the consumer has gone is acceptable
-            outcome = "err_consumer_gone_other".into();
+        if dropped {
+            outcome = if o.result.contains("PollingAsyncError") { "err_consumer_gone".into() } else { "err_consumer_gone_other".into() };
+        } else if budget_exhaustible {
+            outcome = if o.never_kind == "listing" { "err_budget_listing".into() } else { "err_budget_download".into() };
         } else {
-            let sig = if !budget_exhaustible { format!("poll:gave_up_although_every_chunk_appeared_within_budget:max_failures={}", o.max_failures.min(9)) } else { "poll:unexpected_error_kind".to_string() };
-            ctx.fail(&sig, || format!("{:?} choices {:?}: {} (log {:?})", root, o.choices.taken(), o.result, o.log), wit);
+            ctx.fail(
+                &format!("poll:gave_up_although_every_chunk_appeared_within_budget:max_failures={}", o.max_failures.min(9)),
+                || format!("{:?} choices {:?}: {} (log {:?}; requests for absent objects: {:?})", root, o.choices.taken(), o.result, o.log, &o.unexpected[..o.unexpected.len().min(3)]),
+                wit,
+            );
             outcome = "err_unexpected".into();
         }
     }
@@ -757,6 +854,10 @@ pub fn worker(ctx: &'static Ctx, i: usize, n: usize) {
     let mine: Vec<(usize, Root)> = idx.into_iter().enumerate().filter(|(k, _)| k % n == i).map(|(_, r)| r).collect();
     let mut st = Stats::new();
     let (ex, pts, rep) = run_roots(ctx, &sim, &mine, &mut st);
+    if crate::s3sim::HANDLER_PANICS.load(std::sync::atomic::Ordering::SeqCst) > 0 {
+        eprintln!("MACHINERY: simulator handler panicked in worker {i}");
+        std::process::exit(3);
+    }
     println!("WORKER_RESULT {}", json!({"stats": st.to_json(), "fails": ctx.export_fails(), "executions": ex, "points": pts, "replays": rep}));
 }
 
